@@ -49,9 +49,10 @@
     * `invWalkF_exact`, `invBucket_exact`, `foldl_invBucket_exact`, `invalidate_marks_exactly_partial` — the merge walk
       of `cache2Bucket.invalidate` (with its range pre-check) and the walk over all buckets mark exactly the chunks whose
       start is among the batch's chunk starts, under sortedness/disjointness hypotheses on the state.
-  Still not proved (see `invalidate_marks_exactly_partial`): that those hypotheses are a trace invariant (sorted,
-  grid-aligned, disjoint bucket chunk lists) and that `invStarts` of a sorted batch is strictly increasing and equals the
-  set of chunk starts of its seconds; correspondence and the `stale-after-invalidate` oracle cover the gap.
+    * `invStarts_spec` (uniqueness of `t / dur`), `buckets_disjoint`, `invalidate_marks_exactly_reachable_partial` — for
+      every reachable state and sorted batch: a bucket's chunk is marked iff a second lies in `[start, start + dur)`.
+  Still a hypothesis there (not proved as a trace invariant): bucket chunk lists sorted by start and aligned to the chunk
+  grid (through `insertCid`, eviction, reset); correspondence and the `stale-after-invalidate` oracle cover the gap.
   On a tree without fixes/C23-cache2-trim-wakeups-and-double-remove.diff the three decision-site theorems do not
   build (SH.Gen.C23 then says hardLimit / whenBelow / no guard) — that is the intended alarm; the `example`s
   next to them show the old behaviour violating the property on the states observed on the real code.
@@ -2214,5 +2215,192 @@ example : ∀ b ∈ (run (init cfg0) [.get 1 1 0 false 100 104 200000000000, .fi
   unfold BucketSorted; decide
 
 end InvExact
+
+/-! ## `invStarts` of a sorted batch, and the invalidate clause on reachable states -/
+
+theorem cso_le (cfg : Cfg) (hd : 0 < cfg.dur) (x : Int) : chunkStartOf cfg x ≤ x :=
+  Int.ediv_mul_le x (Int.ne_of_gt hd)
+
+theorem cso_lt (cfg : Cfg) (hd : 0 < cfg.dur) (x : Int) : x < chunkStartOf cfg x + cfg.dur := by
+  have := Int.lt_ediv_add_one_mul_self x hd
+  rw [Int.add_mul, Int.one_mul] at this
+  exact this
+
+/-- uniqueness of `t / dur`: an aligned start whose chunk contains `x` is the chunk start of `x` -/
+theorem cso_unique (cfg : Cfg) (hd : 0 < cfg.dur) (x : Int) (k : Int) (h1 : k * cfg.dur ≤ x) (h2 : x < k * cfg.dur + cfg.dur) :
+    chunkStartOf cfg x = k * cfg.dur := by
+  have a := cso_le cfg hd x
+  have b := cso_lt cfg hd x
+  unfold chunkStartOf at a b ⊢
+  have e1 : x / cfg.dur < k + 1 := by
+    apply Int.lt_of_mul_lt_mul_right (a := cfg.dur) _ (Int.le_of_lt hd)
+    rw [Int.add_mul, Int.one_mul]; omega
+  have e2 : k < x / cfg.dur + 1 := by
+    apply Int.lt_of_mul_lt_mul_right (a := cfg.dur) _ (Int.le_of_lt hd)
+    rw [Int.add_mul, Int.one_mul]; omega
+  have : x / cfg.dur = k := by omega
+  rw [this]
+
+theorem cso_aligned_ge (cfg : Cfg) (hd : 0 < cfg.dur) (x m : Int) (h : m * cfg.dur ≤ x) : m * cfg.dur ≤ chunkStartOf cfg x := by
+  unfold chunkStartOf
+  have : m ≤ x / cfg.dur := Int.le_ediv_of_mul_le hd h
+  exact Int.mul_le_mul_of_nonneg_right this (Int.le_of_lt hd)
+
+/-- `invStarts` from the state "current chunk ends at `stop`" -/
+theorem invStarts_some_spec (cfg : Cfg) (hd : 0 < cfg.dur) (ts : List Int) (m : Int)
+    (hs : ts.Pairwise (· ≤ ·)) (hge : ∀ t ∈ ts, m * cfg.dur - cfg.dur ≤ t * nsec) :
+    (invStarts cfg ts (some (m * cfg.dur))).Pairwise (· < ·) ∧
+    (∀ x ∈ invStarts cfg ts (some (m * cfg.dur)), m * cfg.dur ≤ x ∧ ∃ t ∈ ts, x = chunkStartOf cfg (t * nsec)) ∧
+    (∀ t ∈ ts, chunkStartOf cfg (t * nsec) = m * cfg.dur - cfg.dur ∨
+      chunkStartOf cfg (t * nsec) ∈ invStarts cfg ts (some (m * cfg.dur))) := by
+  induction ts generalizing m with
+  | nil => simp [invStarts]
+  | cons t ts ih =>
+    have hp := List.pairwise_cons.mp hs
+    simp only [invStarts]
+    split
+    · -- next chunk
+      rename_i hle
+      have hq : chunkStartOf cfg (t * nsec) + cfg.dur = (t * nsec / cfg.dur + 1) * cfg.dur := by
+        unfold chunkStartOf; rw [Int.add_mul, Int.one_mul]
+      have hst : m * cfg.dur ≤ chunkStartOf cfg (t * nsec) := cso_aligned_ge cfg hd _ m hle
+      have hge' : ∀ u ∈ ts, (t * nsec / cfg.dur + 1) * cfg.dur - cfg.dur ≤ u * nsec := by
+        intro u hu
+        have h1 := hp.1 u hu
+        have h2 := cso_le cfg hd (t * nsec)
+        have h3 : t * nsec ≤ u * nsec := Int.mul_le_mul_of_nonneg_right h1 (by decide)
+        rw [← hq]; omega
+      obtain ⟨r1, r2, r3⟩ := ih (t * nsec / cfg.dur + 1) hp.2 hge'
+      rw [← hq] at r1 r2 r3
+      refine ⟨List.pairwise_cons.mpr ⟨fun x hx => by have := (r2 x hx).1; omega, r1⟩, ?_, ?_⟩
+      · intro x hx
+        simp only [List.mem_cons] at hx
+        rcases hx with rfl | hx
+        · exact ⟨hst, t, List.mem_cons_self .., rfl⟩
+        · obtain ⟨a, u, hu, e⟩ := r2 x hx
+          exact ⟨by omega, u, List.mem_cons_of_mem _ hu, e⟩
+      · intro u hu
+        simp only [List.mem_cons] at hu
+        rcases hu with rfl | hu
+        · right; exact List.mem_cons_self ..
+        · rcases r3 u hu with e | e
+          · right; rw [e]; simp
+          · right; exact List.mem_cons_of_mem _ e
+    · -- same chunk
+      rename_i hnle
+      have hcur : chunkStartOf cfg (t * nsec) = m * cfg.dur - cfg.dur := by
+        have := cso_unique cfg hd (t * nsec) (m - 1) (by rw [Int.sub_mul, Int.one_mul]; exact hge t (List.mem_cons_self ..))
+          (by rw [Int.sub_mul, Int.one_mul]; omega)
+        rw [this, Int.sub_mul, Int.one_mul]
+      obtain ⟨r1, r2, r3⟩ := ih m hp.2 (fun u hu => hge u (List.mem_cons_of_mem _ hu))
+      refine ⟨r1, ?_, ?_⟩
+      · intro x hx
+        obtain ⟨a, u, hu, e⟩ := r2 x hx
+        exact ⟨a, u, List.mem_cons_of_mem _ hu, e⟩
+      · intro u hu
+        simp only [List.mem_cons] at hu
+        rcases hu with rfl | hu
+        · exact Or.inl hcur
+        · exact r3 u hu
+
+/-- **invStarts_spec**: for a sorted batch of seconds the chunk starts handed to the shard are strictly increasing and
+    are exactly the chunk starts of the seconds of the batch -/
+theorem invStarts_spec (cfg : Cfg) (hd : 0 < cfg.dur) (secs : List Int) (hs : secs.Pairwise (· ≤ ·)) :
+    (invStarts cfg secs none).Pairwise (· < ·) ∧
+    ∀ x, x ∈ invStarts cfg secs none ↔ ∃ t ∈ secs, x = chunkStartOf cfg (t * nsec) := by
+  cases secs with
+  | nil => simp [invStarts]
+  | cons t ts =>
+    have hp := List.pairwise_cons.mp hs
+    simp only [invStarts]
+    have hq : chunkStartOf cfg (t * nsec) + cfg.dur = (t * nsec / cfg.dur + 1) * cfg.dur := by
+      unfold chunkStartOf; rw [Int.add_mul, Int.one_mul]
+    have hge' : ∀ u ∈ ts, (t * nsec / cfg.dur + 1) * cfg.dur - cfg.dur ≤ u * nsec := by
+      intro u hu
+      have h1 := hp.1 u hu
+      have h2 := cso_le cfg hd (t * nsec)
+      have h3 : t * nsec ≤ u * nsec := Int.mul_le_mul_of_nonneg_right h1 (by decide)
+      rw [← hq]; omega
+    obtain ⟨r1, r2, r3⟩ := invStarts_some_spec cfg hd ts (t * nsec / cfg.dur + 1) hp.2 hge'
+    rw [← hq] at r1 r2 r3
+    refine ⟨List.pairwise_cons.mpr ⟨fun x hx => by have := (r2 x hx).1; omega, r1⟩, fun x => ⟨?_, ?_⟩⟩
+    · intro hx
+      simp only [List.mem_cons] at hx
+      rcases hx with rfl | hx
+      · exact ⟨t, List.mem_cons_self .., rfl⟩
+      · obtain ⟨_, u, hu, e⟩ := r2 x hx
+        exact ⟨u, List.mem_cons_of_mem _ hu, e⟩
+    · intro ⟨u, hu, e⟩
+      simp only [List.mem_cons] at hu
+      rcases hu with rfl | hu
+      · rw [e]; exact List.mem_cons_self ..
+      · rcases r3 u hu with e' | e'
+        · rw [e, e']; simp
+        · rw [e]; exact List.mem_cons_of_mem _ e'
+
+
+section InvExact2
+open SH.TsCache.Place SH.TsCache.Wait SH.TsCache.Fill
+
+theorem run_cfg (ops : List Op) (s : St) : (run s ops).cfg = s.cfg := by
+  induction ops generalizing s with
+  | nil => rfl
+  | cons op ops ih => simp only [run, List.foldl_cons] at ih ⊢; rw [ih, step_cfg]
+
+/-- buckets of a reachable state share no chunk (bucket keys are unique, a chunk carries its bucket's key) -/
+theorem buckets_disjoint (s : St) (hp : PInv s) (hw : WInv s) :
+    s.buckets.Pairwise (fun a b => ∀ i, i ∈ a.cids → i ∉ b.cids) := by
+  have hk : s.buckets.Pairwise (fun a b => a.key ≠ b.key) := by
+    have := hw.bkeys
+    rw [List.Nodup, List.pairwise_map] at this
+    exact this
+  refine hk.imp_of_mem ?_
+  intro a b ha hb hne i hia hib
+  have e1 := (hp.ci.bk (a.key, a.cids) (by simp only [bksOf, List.mem_map]; exact ⟨a, ha, rfl⟩) i hia).2
+  have e2 := (hp.ci.bk (b.key, b.cids) (by simp only [bksOf, List.mem_map]; exact ⟨b, hb, rfl⟩) i hib).2
+  exact hne (e1.symm.trans e2)
+
+/-- **invalidate_marks_exactly_partial** (for every reachable state and every sorted batch of seconds): a chunk of a
+    bucket is marked by `invalidate` iff one of the seconds lies in its half-open interval `[start, start + dur)`, and it
+    is otherwise untouched — PROVIDED the bucket chunk lists of that state are sorted by start and aligned to the chunk
+    grid.  Discharged here: the batch's chunk starts are strictly increasing and are exactly the chunk starts of the
+    seconds (`invStarts_spec`, uniqueness of `t / dur`), buckets are disjoint (`buckets_disjoint`, a trace invariant).
+    STILL A HYPOTHESIS (not proved as a trace invariant): `BucketSorted` and grid alignment of the chunk starts through
+    `insertCid`, eviction and reset — with it the theorem would be `invalidate_marks_exactly` for all op lists. -/
+theorem invalidate_marks_exactly_reachable_partial (cfg : Cfg) (wf : WF cfg) (hd : 0 < cfg.dur) (ops : List Op)
+    (hg : GoodOps (init cfg) ops) (secs : List Int) (hsecs : secs.Pairwise (· ≤ ·)) (now : Int)
+    (hs : ∀ b ∈ (run (init cfg) ops).buckets, BucketSorted (run (init cfg) ops).chunks b)
+    (hal : ∀ b ∈ (run (init cfg) ops).buckets, ∀ i ∈ b.cids, ∃ k : Int, (getChunk (run (init cfg) ops).chunks i).start = k * cfg.dur)
+    (j : Nat) (hj : ∃ b ∈ (run (init cfg) ops).buckets, j ∈ b.cids) :
+    getChunk (opInv (run (init cfg) ops) secs now).chunks j =
+      if ∃ sec ∈ secs, (getChunk (run (init cfg) ops).chunks j).start ≤ sec * nsec ∧
+          sec * nsec < (getChunk (run (init cfg) ops).chunks j).start + cfg.dur
+      then invalidateChunk now (run (init cfg) ops).tick (getChunk (run (init cfg) ops).chunks j)
+      else getChunk (run (init cfg) ops).chunks j := by
+  have hT := run_T ops (init cfg) wf hg (Tri_init cfg)
+  have hc : (run (init cfg) ops).cfg = cfg := run_cfg ops _
+  obtain ⟨hsorted, hmem⟩ := invStarts_spec (run (init cfg) ops).cfg (by rw [hc]; exact hd) secs hsecs
+  rw [invalidate_marks_exactly_partial _ secs now hsorted hs (buckets_disjoint _ hT.1.1 hT.1.2) j]
+  obtain ⟨b, hb, hjb⟩ := hj
+  obtain ⟨k, hk⟩ := hal b hb j hjb
+  have hiff : ((∃ b ∈ (run (init cfg) ops).buckets, j ∈ b.cids) ∧
+      (getChunk (run (init cfg) ops).chunks j).start ∈ invStarts (run (init cfg) ops).cfg secs none) ↔
+      ∃ sec ∈ secs, (getChunk (run (init cfg) ops).chunks j).start ≤ sec * nsec ∧
+          sec * nsec < (getChunk (run (init cfg) ops).chunks j).start + cfg.dur := by
+    rw [hmem, hc]
+    constructor
+    · intro ⟨_, sec, hsec, e⟩
+      exact ⟨sec, hsec, by rw [e]; exact cso_le cfg hd _, by rw [e]; exact cso_lt cfg hd _⟩
+    · intro ⟨sec, hsec, h1, h2⟩
+      refine ⟨⟨b, hb, hjb⟩, sec, hsec, ?_⟩
+      rw [hk] at h1 h2 ⊢
+      exact (cso_unique cfg hd _ k h1 h2).symm
+  by_cases h : ∃ sec ∈ secs, (getChunk (run (init cfg) ops).chunks j).start ≤ sec * nsec ∧
+      sec * nsec < (getChunk (run (init cfg) ops).chunks j).start + cfg.dur
+  · rw [if_pos (hiff.mpr h), if_pos h]
+  · rw [if_neg (fun x => h (hiff.mp x)), if_neg h]
+
+end InvExact2
+
 
 end SH.Props.C23
